@@ -2,6 +2,10 @@ pub mod c01;
 pub mod c02;
 pub mod c03;
 pub mod c04;
+pub mod c09;
+pub mod c10;
+pub mod c11;
+pub mod c15;
 pub mod common;
 
 use crate::engine::{Check, Ctx, Report};
@@ -13,6 +17,10 @@ pub fn run(id: &str, ctx: &Ctx) -> Option<Report> {
         "C02" => c02::run(ctx),
         "C03" => c03::run(ctx),
         "C04" => c04::run(ctx),
+        "C09" => c09::run(ctx),
+        "C10" => c10::run(ctx),
+        "C11" => c11::run(ctx),
+        "C15" => c15::run(ctx),
         _ => return None,
     })
 }
@@ -23,6 +31,10 @@ pub fn replay(id: &str, stage: &str, case: &Value) -> Option<Check> {
         "C02" => c02::replay(stage, case),
         "C03" => c03::replay(stage, case),
         "C04" => c04::replay(stage, case),
+        "C09" => c09::replay(stage, case),
+        "C10" => c10::replay(stage, case),
+        "C11" => c11::replay(stage, case),
+        "C15" => c15::replay(stage, case),
         _ => return None,
     })
 }
